@@ -27,6 +27,7 @@ def run_instance(inst):
                 "id": str(g.graph.get("id")),
                 "edges": sorted([str(u), str(v), fx(d.get("flow")), tname(d.get("flow"))] for u, v, d in g.edges(data=True)),
                 "constraints": [[[str(a), str(b)] for a, b in c] for c in g.graph.get("constraints", [])],
+                "has_constraints": "constraints" in g.graph,
                 "n": g.graph.get("n", NONE), "m": g.graph.get("m", NONE), "w": g.graph.get("w", NONE),
                 "nodes": sorted(str(v) for v in g.nodes())})
     except BaseException as e:
